@@ -217,3 +217,24 @@ package tq
 //@   modifies field q.adapter, field q.adapterInProgress
 //@ iface (Manifest).Upgrade
 //@   noeffect
+
+// C18: what goes into a batch request and what is accepted from its response.
+// Request objects carry nothing but the id and size of a queued object; a
+// response naming another hash algorithm than sha256 is refused.
+//@ func (batch).ToTransfers
+//@   props C18
+//@   modifies fresh
+//@   loop 1 iter len(transfers) == iter(len(transfers)) + 1
+//@   loop 1 iter transfers[iter(len(transfers))].Oid == t.Oid && transfers[iter(len(transfers))].Size == t.Size
+//@   loop 1 iter transfers[iter(len(transfers))].Name == "" && transfers[iter(len(transfers))].Path == "" && !transfers[iter(len(transfers))].Authenticated
+//@   loop 1 iter transfers[iter(len(transfers))].Actions == nil && transfers[iter(len(transfers))].Links == nil && transfers[iter(len(transfers))].Error == nil
+
+//@ func (*tqClient).Batch
+//@   props C18
+//@   requires @inv bReq != nil
+//@   ensures result1 == nil && result0 != nil ==> result0.HashAlgorithm == "" || result0.HashAlgorithm == "sha256"
+
+//@ func github.com/git-lfs/git-lfs/v3/lfshttp.DecodeJSON
+//@   assumed
+//@   props C18
+//@   modifies heap
